@@ -951,7 +951,7 @@ int main(int argc, char **argv) {
             if (pi(w[1], a) && get(a)) {
                 std::string r;
                 Args rest(w.begin() + 2, w.end());
-                if (get(a)->mutate(verb, rest, r)) { out << "R " << r << "\n"; get(a)->dump(out, a); ok = true; }
+                if (get(a)->mutate(verb, rest, r)) { out << "R " << r << "\n"; if (!quiet) get(a)->dump(out, a); ok = true; }
             }
         }
         o << "> " << echo << "\n";
